@@ -129,6 +129,8 @@ enum Class {
   NonUtf8,
   Oversize,
   ErrSearch,
+  /// header-value / query-string family: a valid request with one unusual header value or query
+  Header,
   /// echoed-input family: a long / multi-byte name placed where the server quotes it back
   Echo,
 }
@@ -146,6 +148,11 @@ struct Req {
   max_body: usize,
   /// echo family: (location index, the name that was planted)
   echo: Option<(usize, String)>,
+  /// header / query family: the exact request bytes (instead of the ones built from the fields)
+  raw: Option<Vec<u8>>,
+  /// the request carries a byte HTTP itself forbids (control byte in a header value, raw
+  /// non-ASCII byte in the request target): hyper's own bare `400 Bad Request` is accepted too
+  protocol_400_ok: bool,
 }
 
 impl Req {
@@ -158,7 +165,10 @@ impl Req {
   fn to_json(&self, st: St) -> Value {
     json!({"engine": "httpmc-robust", "state": st.name(), "server_flags": ["--max-body-bytes", self.max_body.to_string()], "max_body": self.max_body,
       "method": self.method, "path": self.path, "content_type": self.ctype, "body_class": format!("{:?}", self.class), "body_desc": self.desc,
-      "body_hex": self.body.as_ref().map(|b| b.iter().map(|x| format!("{x:02x}")).collect::<String>())})
+      "body_hex": self.body.as_ref().map(|b| b.iter().map(|x| format!("{x:02x}")).collect::<String>()),
+      "raw_request_hex": self.raw.as_ref().map(|b| b.iter().map(|x| format!("{x:02x}")).collect::<String>()),
+      "raw_request_lossy": self.raw.as_ref().map(|b| String::from_utf8_lossy(b).into_owned()),
+      "protocol_400_ok": self.protocol_400_ok})
   }
   fn from_json(v: &Value) -> (St, Req) {
     let st = St::from_name(v["state"].as_str().unwrap_or(""));
@@ -167,11 +177,12 @@ impl Req {
     let ctype = v["content_type"].as_str().and_then(|c| CTYPES.iter().flatten().copied().find(|x| *x == c));
     let body = v["body_hex"].as_str().map(|h| (0..h.len() / 2).map(|i| u8::from_str_radix(&h[2 * i..2 * i + 2], 16).unwrap_or(0)).collect::<Vec<u8>>());
     let cls = v["body_class"].as_str().unwrap_or("");
-    let class = [Class::NoBody, Class::Empty, Class::Brace, Class::Valid, Class::Mutant, Class::NonUtf8, Class::Oversize, Class::ErrSearch, Class::Echo]
+    let class = [Class::NoBody, Class::Empty, Class::Brace, Class::Valid, Class::Mutant, Class::NonUtf8, Class::Oversize, Class::ErrSearch, Class::Echo, Class::Header]
       .into_iter()
       .find(|c| format!("{c:?}") == cls)
       .unwrap_or(Class::Mutant);
-    (st, Req { max_body: v["max_body"].as_u64().map(|m| m as usize).unwrap_or(MAX_BODY), echo: None, method, path: v["path"].as_str().unwrap_or("/").to_string(), ctype, body, class, desc: v["body_desc"].as_str().unwrap_or("").to_string() })
+    let unhex = |h: &str| (0..h.len() / 2).map(|i| u8::from_str_radix(&h[2 * i..2 * i + 2], 16).unwrap_or(0)).collect::<Vec<u8>>();
+    (st, Req { max_body: v["max_body"].as_u64().map(|m| m as usize).unwrap_or(MAX_BODY), echo: None, raw: v["raw_request_hex"].as_str().map(unhex), protocol_400_ok: v["protocol_400_ok"].as_bool().unwrap_or(false), method, path: v["path"].as_str().unwrap_or("/").to_string(), ctype, body, class, desc: v["body_desc"].as_str().unwrap_or("").to_string() })
   }
 }
 
@@ -335,7 +346,7 @@ fn build_space(quick: bool) -> Space {
           }
         }
         for (b, class, desc) in bodies {
-          push(Req { max_body: MAX_BODY, echo: None, method, path: path.clone(), ctype: ct, body: b, class, desc }, if exact { "routing:known-path" } else { "routing:unknown-path" }, &mut reqs);
+          push(Req { max_body: MAX_BODY, echo: None, raw: None, protocol_400_ok: false, method, path: path.clone(), ctype: ct, body: b, class, desc }, if exact { "routing:known-path" } else { "routing:unknown-path" }, &mut reqs);
         }
       }
     }
@@ -349,9 +360,9 @@ fn build_space(quick: bool) -> Space {
       _ => CTYPES.to_vec(),
     };
     for &ct in &ctypes {
-      push(Req { max_body: MAX_BODY, echo: None, method: r.method, path: r.path.into(), ctype: ct, body: Some(vec![0xff, 0xfe, b'{', 0xc3]), class: Class::NonUtf8, desc: "non-UTF-8 bytes ff fe 7b c3".into() }, "body:non-utf8", &mut reqs);
+      push(Req { max_body: MAX_BODY, echo: None, raw: None, protocol_400_ok: false, method: r.method, path: r.path.into(), ctype: ct, body: Some(vec![0xff, 0xfe, b'{', 0xc3]), class: Class::NonUtf8, desc: "non-UTF-8 bytes ff fe 7b c3".into() }, "body:non-utf8", &mut reqs);
       push(
-        Req { max_body: MAX_BODY, echo: None, method: r.method, path: r.path.into(), ctype: ct, body: Some(oversize_body()), class: Class::Oversize, desc: format!("{} bytes (max_body_bytes + 1)", MAX_BODY + 1) },
+        Req { max_body: MAX_BODY, echo: None, raw: None, protocol_400_ok: false, method: r.method, path: r.path.into(), ctype: ct, body: Some(oversize_body()), class: Class::Oversize, desc: format!("{} bytes (max_body_bytes + 1)", MAX_BODY + 1) },
         "body:oversize",
         &mut reqs,
       );
@@ -360,16 +371,16 @@ fn build_space(quick: bool) -> Space {
           if quick {
             break;
           }
-          push(Req { max_body: MAX_BODY, echo: None, method: r.method, path: r.path.into(), ctype: ct, body: Some(vb.as_bytes().to_vec()), class: Class::Valid, desc: format!("second valid {} body {}", r.path, vb.replace('\n', "\\n")) }, "body:second-valid", &mut reqs);
+          push(Req { max_body: MAX_BODY, echo: None, raw: None, protocol_400_ok: false, method: r.method, path: r.path.into(), ctype: ct, body: Some(vb.as_bytes().to_vec()), class: Class::Valid, desc: format!("second valid {} body {}", r.path, vb.replace('\n', "\\n")) }, "body:second-valid", &mut reqs);
         }
         for (m, d) in mutants(vb.as_bytes(), repl) {
-          push(Req { max_body: MAX_BODY, echo: None, method: r.method, path: r.path.into(), ctype: ct, body: Some(m), class: Class::Mutant, desc: format!("{d} [valid = {}]", vb.replace('\n', "\\n")) }, "body:single-edit-neighbour", &mut reqs);
+          push(Req { max_body: MAX_BODY, echo: None, raw: None, protocol_400_ok: false, method: r.method, path: r.path.into(), ctype: ct, body: Some(m), class: Class::Mutant, desc: format!("{d} [valid = {}]", vb.replace('\n', "\\n")) }, "body:single-edit-neighbour", &mut reqs);
         }
       }
     }
   }
   for (d, v) in err_searches() {
-    push(Req { max_body: MAX_BODY, echo: None, method: "POST", path: "/search".into(), ctype: Some(JSON), body: Some(v.to_string().into_bytes()), class: Class::ErrSearch, desc: format!("{d}: {v}") }, "body:error-search", &mut reqs);
+    push(Req { max_body: MAX_BODY, echo: None, raw: None, protocol_400_ok: false, method: "POST", path: "/search".into(), ctype: Some(JSON), body: Some(v.to_string().into_bytes()), class: Class::ErrSearch, desc: format!("{d}: {v}") }, "body:error-search", &mut reqs);
   }
   Space { reqs, counts }
 }
@@ -665,6 +676,8 @@ fn echo_req(loc_idx: usize, loc: &EchoLoc, quick: bool, width: usize, pad: usize
     path: loc.path.to_string(),
     ctype: Some(loc.ctype),
     body: Some(body),
+    raw: None,
+    protocol_400_ok: false,
     class: Class::Echo,
     desc: format!(
       "echo location {} = {}; template {} with @N@ = {} ASCII byte(s) + {}-byte characters {:?} (+ ASCII filler) = {} bytes",
@@ -688,6 +701,140 @@ struct LocStat {
   max_body_bytes: usize,
   statuses: std::collections::BTreeSet<u16>,
   error_types: std::collections::BTreeSet<String>,
+}
+
+// ---------------------------------------------------------------------------------------------
+// header-value and query-string family: every route with its method and its valid body, with one
+// request header (or the query string) carrying non-ASCII / unusual bytes, sent as raw bytes.
+
+fn raw_request(method: &str, target: &[u8], headers: &[(&str, Vec<u8>)], body: Option<&[u8]>) -> Vec<u8> {
+  let mut out = Vec::new();
+  out.extend_from_slice(method.as_bytes());
+  out.push(b' ');
+  out.extend_from_slice(target);
+  out.extend_from_slice(b" HTTP/1.1\r\n");
+  if !headers.iter().any(|(k, _)| k.eq_ignore_ascii_case("host")) {
+    out.extend_from_slice(b"Host: 127.0.0.1\r\n");
+  }
+  out.extend_from_slice(b"Connection: close\r\n");
+  for (k, v) in headers {
+    out.extend_from_slice(k.as_bytes());
+    out.extend_from_slice(b": ");
+    out.extend_from_slice(v);
+    out.extend_from_slice(b"\r\n");
+  }
+  if let Some(b) = body {
+    out.extend_from_slice(format!("Content-Length: {}\r\n", b.len()).as_bytes());
+  }
+  out.extend_from_slice(b"\r\n");
+  if let Some(b) = body {
+    out.extend_from_slice(b);
+  }
+  out
+}
+
+/// (label, bytes, forbidden by HTTP itself)
+fn odd_texts() -> Vec<(&'static str, Vec<u8>, bool)> {
+  vec![
+    ("2-byte UTF-8 character 'é'", "caf\u{e9}".as_bytes().to_vec(), false),
+    ("3-byte UTF-8 character '日'", "x\u{65e5}".as_bytes().to_vec(), false),
+    ("4-byte UTF-8 character '😀'", "x\u{1f600}".as_bytes().to_vec(), false),
+    ("lone Latin-1 byte 0xE9", vec![b'c', b'a', b'f', 0xe9], false),
+    ("lone byte 0x80", vec![b'x', 0x80], false),
+    ("lone byte 0xFF", vec![b'x', 0xff], false),
+    ("a tab", b"a\tb".to_vec(), false),
+    ("control byte 0x01", vec![b'a', 0x01, b'b'], true),
+    ("control byte 0x7F", vec![b'a', 0x7f, b'b'], true),
+    ("NUL byte", vec![b'a', 0x00, b'b'], true),
+  ]
+}
+
+const ODD_HEADERS: [&str; 9] = ["Content-Type", "Accept", "Accept-Encoding", "Accept-Language", "Authorization", "Host", "User-Agent", "Cookie", "X-Request-Id"];
+
+/// The header value: the usual value of that header with the odd text appended as a parameter.
+fn odd_header_value(header: &str, base_ctype: &str, text: &[u8]) -> Vec<u8> {
+  let (pre, post): (String, &str) = match header {
+    "Content-Type" => (format!("{base_ctype}; charset=utf-8; title=\""), "\""),
+    "Accept" => ("application/json; q=0.9; title=\"".into(), "\""),
+    "Accept-Encoding" => ("identity; x=\"".into(), "\""),
+    "Accept-Language" => ("en; x=\"".into(), "\""),
+    "Authorization" => ("Bearer ".into(), ""),
+    "Host" => ("127.0.0.1".into(), ""),
+    "User-Agent" => ("curl/8.0 (".into(), ")"),
+    "Cookie" => ("session=".into(), ""),
+    _ => ("id-".into(), ""),
+  };
+  let mut v = pre.into_bytes();
+  v.extend_from_slice(text);
+  v.extend_from_slice(post.as_bytes());
+  v
+}
+
+fn header_family() -> Vec<Req> {
+  let mut out = Vec::new();
+  let hexs = |b: &[u8]| b.iter().map(|x| if (0x20..0x7f).contains(x) { (*x as char).to_string() } else { format!("\\x{x:02x}") }).collect::<String>();
+  for r in ROUTES.iter() {
+    let (ct, body): (Option<&'static str>, Option<Vec<u8>>) = match r.body {
+      Some((ct, vb)) => (Some(ct), Some(vb.as_bytes().to_vec())),
+      None => (None, None),
+    };
+    for header in ODD_HEADERS {
+      for (label, text, forbidden) in odd_texts() {
+        let value = odd_header_value(header, ct.unwrap_or(JSON), &text);
+        let mut headers: Vec<(&str, Vec<u8>)> = Vec::new();
+        if let (Some(c), false) = (ct, header == "Content-Type") {
+          headers.push(("Content-Type", c.as_bytes().to_vec()));
+        }
+        headers.push((header, value.clone()));
+        let raw = raw_request(r.method, r.path.as_bytes(), &headers, body.as_deref());
+        out.push(Req {
+          method: r.method,
+          path: r.path.to_string(),
+          ctype: ct,
+          body: body.clone(),
+          class: Class::Header,
+          desc: format!("valid {} request with header {header}: {} ({label})", r.path, hexs(&value)),
+          max_body: MAX_BODY,
+          echo: None,
+          raw: Some(raw),
+          protocol_400_ok: forbidden,
+        });
+      }
+    }
+    // query string: percent-encoded (valid HTTP) and raw (not valid HTTP) non-ASCII bytes
+    let queries: [(&str, &[u8], bool); 8] = [
+      ("percent-encoded 'é'", b"?q=caf%C3%A9", false),
+      ("percent-encoded '😀'", b"?q=%F0%9F%98%80", false),
+      ("percent-encoded lone 0xE9", b"?q=caf%E9", false),
+      ("percent-encoded 0xFF and NUL", b"?q=%FF%00", false),
+      ("truncated percent escape", b"?q=%C3%", false),
+      ("raw UTF-8 'é'", b"?q=caf\xc3\xa9", true),
+      ("raw lone 0xE9", b"?q=caf\xe9", true),
+      ("raw 0xFF", b"?q=\xff", true),
+    ];
+    for (label, q, forbidden) in queries {
+      let mut target = r.path.as_bytes().to_vec();
+      target.extend_from_slice(q);
+      let mut headers: Vec<(&str, Vec<u8>)> = Vec::new();
+      if let Some(c) = ct {
+        headers.push(("Content-Type", c.as_bytes().to_vec()));
+      }
+      let raw = raw_request(r.method, &target, &headers, body.as_deref());
+      out.push(Req {
+        method: r.method,
+        path: r.path.to_string(),
+        ctype: ct,
+        body: body.clone(),
+        class: Class::Header,
+        desc: format!("valid {} request with query string {} ({label})", r.path, hexs(q)),
+        max_body: MAX_BODY,
+        echo: None,
+        raw: Some(raw),
+        protocol_400_ok: forbidden,
+      });
+    }
+  }
+  out
 }
 
 // ---------------------------------------------------------------------------------------------
@@ -821,6 +968,10 @@ fn judge(st: St, req: &Req, out: &Result<Resp, String>, panics: &[String]) -> Ve
   );
   let shown = format!("{} {}", status, if resp.body.is_empty() { "<empty body>".to_string() } else { resp.body_text() });
   // ---- well-formedness
+  if req.protocol_400_ok && status == 400 && env.is_none() {
+    // answered by the HTTP layer below the application (the request is not valid HTTP)
+    return Verdict { outcome: "protocol-level:400".into(), failure: None, non_2xx: true };
+  }
   if !two && env.is_none() {
     let sig = match route {
       None if status == 404 && resp.body.is_empty() => Some(SIG_UNKNOWN_ROUTE),
@@ -863,6 +1014,15 @@ fn judge(st: St, req: &Req, out: &Result<Resp, String>, panics: &[String]) -> Ve
       };
       let body = req.body.as_deref();
       match req.class {
+        Class::Header => {
+          // a valid request with an unusual header value / query string: it may be served or
+          // refused, but it is never a server error and never succeeds without an index
+          if five || (missing && !four) {
+            Err("2xx or 4xx (4xx while the index is missing)".into())
+          } else {
+            Ok(())
+          }
+        }
         Class::Oversize => {
           let ok = status == 413 || (missing && status == 404) || (r.body.is_none() && status == normal);
           if ok { Ok(()) } else { Err(format!("413 for a body of {} bytes with --max-body-bytes {MAX_BODY}", MAX_BODY + 1)) }
@@ -1012,7 +1172,7 @@ struct One {
 }
 
 fn run_one(srv: &Server, st: St, req: &Req) -> One {
-  let bytes = request_bytes(req.method, &req.path, req.ctype, req.body.as_deref());
+  let bytes = req.raw.clone().unwrap_or_else(|| request_bytes(req.method, &req.path, req.ctype, req.body.as_deref()));
   let out = exchange(srv.port, &bytes, TIMEOUT);
   // a panic message is recorded before the connection task unwinds; give the hook a moment only
   // when the response is missing
@@ -1104,7 +1264,39 @@ pub fn run(ctx: &Ctx) -> i32 {
     o.answer
   };
 
-  // ---- phase 1: the echoed-input family (first, so that no wall budget can skip it)
+  // ---- phase 0: header-value / query-string family (first: no wall budget can skip it)
+  let hdr_reqs = header_family();
+  let hdr_states = [St::Index, St::NoIndex];
+  let hdr_total = hdr_reqs.len() * hdr_states.len();
+  let hdr_outcomes: Mutex<BTreeMap<String, u64>> = Mutex::new(BTreeMap::new());
+  {
+    let mut hjobs: Vec<(usize, St, usize, usize)> = Vec::new();
+    for (si, &st) in hdr_states.iter().enumerate() {
+      let mut i = 0;
+      while i < hdr_reqs.len() {
+        let hi = (i + 60).min(hdr_reqs.len());
+        hjobs.push((si, st, i, hi));
+        i = hi;
+      }
+    }
+    hjobs.par_iter().for_each(|&(si, st, lo, hi)| {
+      let mut srv: Option<Server> = None;
+      let mut local: BTreeMap<String, u64> = BTreeMap::new();
+      for i in lo..hi {
+        step(st, &hdr_reqs[i], i * hdr_states.len() + si, &mut srv, &mut local);
+      }
+      let mut g = hdr_outcomes.lock();
+      let mut o = outcomes.lock();
+      for (k, n) in local {
+        *g.entry(k.clone()).or_default() += n;
+        *o.entry(format!("header:{k}")).or_default() += n;
+      }
+    });
+  }
+  let hdr_wall = rep.elapsed_s();
+  let hdr_outcomes = hdr_outcomes.into_inner();
+
+  // ---- phase 1: the echoed-input family (before the big spaces as well)
   let locs = echo_locations();
   let loc_stats: Mutex<Vec<LocStat>> = Mutex::new(vec![LocStat::default(); locs.len()]);
   // one echo request: run it, update the statistics of its location; true if quoted back
@@ -1167,7 +1359,7 @@ pub fn run(ctx: &Ctx) -> i32 {
       let mut acks = 0;
       let mut q = false;
       for (k, &n) in ECHO_PROBES.iter().enumerate() {
-        q |= echo_step(li, li * ECHO_PROBES.len() + k, n, &mut srv, &mut acks, &mut local);
+        q |= echo_step(li, hdr_total + li * ECHO_PROBES.len() + k, n, &mut srv, &mut acks, &mut local);
       }
       merge(local);
       q
@@ -1178,7 +1370,7 @@ pub fn run(ctx: &Ctx) -> i32 {
   let sweeps: Vec<Sweep> = quotes.iter().map(|&q| if q || !quick { Sweep::Dense } else { Sweep::Sparse }).collect();
   let loc_names: Vec<Vec<(usize, usize, usize)>> = locs.iter().zip(&sweeps).map(|(l, &sw)| echo_names(l, quick, sw)).collect();
   let mut echo_jobs: Vec<(usize, usize, usize, usize)> = Vec::new(); // (location, lo, hi, first sequence number)
-  let mut echo_total = locs.len() * ECHO_PROBES.len();
+  let mut echo_total = hdr_total + locs.len() * ECHO_PROBES.len();
   // locations that quote back first
   let mut order: Vec<usize> = (0..locs.len()).collect();
   order.sort_by_key(|&li| (!quotes[li], li));
@@ -1258,7 +1450,7 @@ pub fn run(ctx: &Ctx) -> i32 {
   let to = timed_out.load(Ordering::Relaxed);
   let cov = vcore::cov! {
     "distinct_nontrivial" => non2xx.load(Ordering::Relaxed),
-    "rule" => "echo family first (see echo_family: every request location whose content the server may quote back x names of 1/2/3/4-byte characters in every byte phase x total lengths swept around the powers of two up to the body limit, same oracle; in the quick tier the dense length sweep is applied to the locations that quote 8 probe names back and a sparse one elsewhere); then space = states {no index, index (2 committed docs), index + 1 queued doc} x distinct well-framed HTTP/1.1 requests: (A) methods {GET,POST,PUT,DELETE} x paths {11 routes, every single-character deletion / substitution / insertion of every route keeping the leading '/', '/'} x content types {application/json, application/x-ndjson, none, text/plain} x bodies {no body, Content-Length 0, '{', the valid body of the base route}; (B) every route with its method x content types x {non-UTF-8 bytes, max_body+1 bytes, every single-edit neighbour (delete / replace / insert over the replacement alphabet) of the route's valid bodies (one per route in the quick tier, two in the thorough tier)}, plus /search requests known to make the core error or panic. Each request runs on a live server in exactly the stated state (the server is rebuilt after any request that may have changed it) and is followed by GET /healthz. A case is non-trivial when it is answered with a non-2xx status (a failure path ran).",
+    "rule" => "header-value / query-string family first (see header_family), then the echo family (see echo_family: every request location whose content the server may quote back x names of 1/2/3/4-byte characters in every byte phase x total lengths swept around the powers of two up to the body limit, same oracle; in the quick tier the dense length sweep is applied to the locations that quote 8 probe names back and a sparse one elsewhere); then space = states {no index, index (2 committed docs), index + 1 queued doc} x distinct well-framed HTTP/1.1 requests: (A) methods {GET,POST,PUT,DELETE} x paths {11 routes, every single-character deletion / substitution / insertion of every route keeping the leading '/', '/'} x content types {application/json, application/x-ndjson, none, text/plain} x bodies {no body, Content-Length 0, '{', the valid body of the base route}; (B) every route with its method x content types x {non-UTF-8 bytes, max_body+1 bytes, every single-edit neighbour (delete / replace / insert over the replacement alphabet) of the route's valid bodies (one per route in the quick tier, two in the thorough tier)}, plus /search requests known to make the core error or panic. Each request runs on a live server in exactly the stated state (the server is rebuilt after any request that may have changed it) and is followed by GET /healthz. A case is non-trivial when it is answered with a non-2xx status (a failure path ran).",
     "requests_per_state" => space.reqs.len(),
     "states" => states.iter().map(|s| s.name()).collect::<Vec<_>>(),
     "space_breakdown" => space.counts,
@@ -1279,6 +1471,17 @@ pub fn run(ctx: &Ctx) -> i32 {
       "per_location": locs.iter().zip(loc_stats.iter()).map(|(l, s)| json!({"location": l.name, "state": l.st.name(), "path": l.path, "template": l.template.trim_end(),
         "sweep": if sweeps[locs.iter().position(|x| x.name == l.name).unwrap()] == Sweep::Dense { "dense" } else { "sparse" }, "requests": s.requests, "non_2xx": s.non_2xx, "quoted_back": s.echoed, "largest_response_body": s.max_body_bytes, "statuses": s.statuses, "error_types": s.error_types})).collect::<Vec<_>>(),
     }),
+    "header_family" => json!({
+      "requests": hdr_total,
+      "wall_s": hdr_wall,
+      "states": hdr_states.iter().map(|s| s.name()).collect::<Vec<_>>(),
+      "routes": ROUTES.len(),
+      "headers": ODD_HEADERS,
+      "texts": odd_texts().iter().map(|t| format!("{}{}", t.0, if t.2 { " (not valid HTTP: a bare 400 from the HTTP layer is accepted)" } else { "" })).collect::<Vec<_>>(),
+      "query_strings_per_route": 8,
+      "rule": "every route with its method, documented content type and valid body x (one of the headers carrying its usual value plus a parameter containing the text | a query string with percent-encoded or raw non-ASCII bytes); oracle: complete response, 2xx with the documented shape or 4xx with the envelope, never 5xx, /healthz afterwards",
+      "outcomes": hdr_outcomes,
+    }),
     "servers_started" => restarts.load(Ordering::Relaxed),
     "distinct_observed_outcomes" => oc.len(),
     "observed_outcomes" => oc,
@@ -1294,7 +1497,8 @@ pub fn run(ctx: &Ctx) -> i32 {
       "an oversized body must give 413; 404 is also accepted while the index is missing, and the normal answer is accepted on routes that take no body".into(),
       "bytes following a complete JSON document in a JSON request body are not treated as certainly invalid (observed: the server ignores them and answers 2xx)".into(),
       "NDJSON blank lines are lines that are empty after trimming whitespace (the replacement alphabet contains no exotic Unicode whitespace)".into(),
-      "echo family: request paths, query strings and header values are not quoted back by the server and stay ASCII; names use the characters a, é, 日, 😀 only (nothing that needs JSON escaping)".into(),
+      "request paths stay ASCII ([a-zA-Z/]); header values and query strings carry non-ASCII bytes only in the header-value / query-string family (9 headers; Content-Length and Transfer-Encoding are left alone because they change the framing); control bytes in header values and raw non-ASCII bytes in the request target are not valid HTTP, so hyper's own bare 400 is accepted for them".into(),
+      "echo family: names use the characters a, é, 日, 😀 only (nothing that needs JSON escaping)".into(),
       "search requests with huge limit / candidate_size values are left out (allocation failure would abort the harness process)".into(),
     ],
   )
